@@ -153,3 +153,31 @@ Proof.
   assert (- M <= x <= M) by (unfold Rabs in Hx; destruct (Rcase_abs x); lra).
   unfold Rabs; destruct (Rcase_abs _); lra.
 Qed.
+
+(* ---- grouped statements used by Props/Properties_C02_scalar.v ---- *)
+Theorem ast_denotes_all x y gy t a k :
+  eval [x] ast_fw_softplus = fw_softplus x /\ eval [x] ast_fw_sigmoid = fw_sigmoid x /\
+  eval [t; a] ast_fw_logsumexp_step = fw_logsumexp_step t a /\ eval [x; k] ast_fw_elu = fw_elu x k /\
+  eval [x; y; gy] ast_bw_softplus = bw_softplus x y gy.
+Proof.
+  exact (conj (ast_fw_softplus_eval x) (conj (ast_fw_sigmoid_eval x) (conj (ast_fw_logsumexp_step_eval t a)
+        (conj (ast_fw_elu_eval x k) (ast_bw_softplus_eval x y gy))))).
+Qed.
+
+Theorem logsumexp_bounded_all M l : all_within M l ->
+  (l <> [] -> - M <= lse_fold l <= M + ln (INR (length l))) /\
+  (forall p a q, l = p ++ a :: q -> p <> [] ->
+     exp_args_nonpos [lse_fold p; a] ast_fw_logsumexp_step /\
+     intermediates_within (2 * M + ln (INR (length l)) + 2) [lse_fold p; a] ast_fw_logsumexp_step /\
+     Rabs (fw_logsumexp_step (lse_fold p) a) <= M + ln (INR (length l))).
+Proof.
+  intros Hl. split.
+  - intros Hne. exact (lse_fold_bounded M l Hne Hl).
+  - intros p a q E Hp. exact (logsumexp_intermediates_bounded M l p a q Hl E Hp).
+Qed.
+
+Theorem softmax_family_bounded_all M l :
+  Forall (fun v => v <= 0) (log_softmax l) /\
+  Forall (fun v => 0 < v <= 1) (softmax l) /\
+  (all_within M l -> Forall (fun v => Rabs v <= 2 * M + ln (INR (length l))) (log_softmax l)).
+Proof. exact (conj (log_softmax_nonpos l) (conj (softmax_range l) (log_softmax_bounded M l))). Qed.
